@@ -123,7 +123,7 @@ CHECKS = {
  "C14": dict(
   engine="E1+E3",
   technique=TECH_E1 + "; E3: stateless deviation-bounded exploration of every iteration order the compile / print code consumes: tools/vinstr (go/types) rewrites each range over a Go map, protoreflect Message / Map Range, RangeFiles, RangeExtensions and maps.Keys / Values call in the 14 compile / print packages (overlay build, /repo untouched) so that the explorer picks the order at each dynamic choice point; every execution runs the real compiler and printer to completion and is compared byte for byte with the canonical run",
-  text="5 rich multi-file / multi-package bundles + ~200 multi-file programs of the reference / service / shape families: (1) every permutation of the file listing x of the package listing returned by the file source (~5300 runs); (2) every sequence of <= 3 CompilePackage calls with repetition on one PackageSet, each call's output compared (~6800); (3) every ordered pair 'compile bundle X, then Y' in one process (~1300); (4) E3: all alternatives (all n! orders for n <= 4, else reversal / rotations / adjacent transpositions) at each of the ~115 dynamic choice points with <= 1 deviating point (quick) / <= 2 (thorough), replay divergence is a hard error; (5) reported: 3 fresh processes. Observed: deterministic-marshal bytes of every FileDescriptorProto, printed text of every file, and the sequence of files CompilePackage returns.",
+  text="7 rich multi-file / multi-package bundles (two with hand-written proto files in the mix) + ~230 multi-file programs of the reference / service / shape families: (1) every permutation of the file listing x of the package listing returned by the file source (~5300 runs); (2) every sequence of <= 3 CompilePackage calls with repetition on one PackageSet, each call's output compared (~6800); (3) every ordered pair 'compile bundle X, then Y' in one process (~1300); (4) E3: all alternatives (all n! orders for n <= 4, else reversal / rotations / adjacent transpositions) at each of the ~115 dynamic choice points with <= 1 deviating point (quick) / <= 2 (thorough), replay divergence is a hard error; (5) reported: 3 fresh processes. Observed: deterministic-marshal bytes of every FileDescriptorProto, printed text of every file, and the sequence of files CompilePackage returns.",
   note="iteration inside protocompile / protobuf-go not visible at their API is not owned; choice points that only run while process-wide caches fill are covered by the fresh-process family only",
   design="3/C14"),
 }
